@@ -193,12 +193,17 @@ func (h *vxHandle) WriteAt(p []byte, off int64) (int, error) {
 
 func (h *vxHandle) write(p []byte, off int64) {
 	end := off + int64(len(p))
-	if end > int64(len(h.f.data)) {
+	// a zero-length write never extends the file: (*os.File).WriteAt issues
+	// no pwrite at all for an empty slice (and pwrite(2) with count 0 leaves
+	// the size alone), so the file does not grow to off
+	if len(p) > 0 && end > int64(len(h.f.data)) {
 		nd := make([]byte, end)
 		copy(nd, h.f.data)
 		h.f.data = nd
 	}
-	copy(h.f.data[off:], p)
+	if len(p) > 0 {
+		copy(h.f.data[off:], p)
+	}
 	if h.fs.record {
 		cp := make([]byte, len(p))
 		copy(cp, p)
